@@ -1,6 +1,7 @@
 package rules
 
 import (
+	"go/token"
 	"go/types"
 	"sort"
 	"strings"
@@ -124,7 +125,7 @@ func ruleKeyUseGated(c *report.Ctx, signingOnly bool) {
 				what = "SecretKey.Decrypt"
 			case cc.IsInvoke() && cc.Method.Name() == "Decrypt" && isNamedIface(cc.Value.Type(), pkgKeystore, "EncryptorDecryptor"):
 				what = "EncryptorDecryptor.Decrypt"
-			case cc.StaticCallee() != nil && cc.StaticCallee().Name() == "Decrypt" && cc.StaticCallee().Signature.Recv() != nil && an.FuncPkg(cc.StaticCallee()) != nil && an.FuncPkg(cc.StaticCallee()).Path() == pkgKeystore:
+			case cc.StaticCallee() != nil && nm(cc.StaticCallee()) == "Decrypt" && cc.StaticCallee().Signature.Recv() != nil && an.FuncPkg(cc.StaticCallee()) != nil && an.FuncPkg(cc.StaticCallee()).Path() == pkgKeystore:
 				what = "cryptoKey.Decrypt"
 			default:
 				return
@@ -321,6 +322,44 @@ func runC03(c *report.Ctx) {
 				}
 			}
 		}
+		// the table form: hashType, ok := table[flag] on a package-level map that is only written by its initialiser
+		for _, s := range calls(srt, sw) {
+			ex, ok := an.CallOf(s).Args[3].(*ssa.Extract)
+			if !ok || ex.Index != 0 {
+				continue
+			}
+			lk, ok := ex.Tuple.(*ssa.Lookup)
+			if !ok || !lk.CommaOk {
+				continue
+			}
+			ld, ok := lk.X.(*ssa.UnOp)
+			if !ok {
+				continue
+			}
+			g, ok := ld.X.(*ssa.Global)
+			if !ok {
+				continue
+			}
+			if _, isPar := lk.Index.(*ssa.Parameter); !isPar {
+				c.Fail("sighash:lookup-key", "the sighash table is not indexed by the flag parameter", posOf(c, s))
+				continue
+			}
+			found := an.AnyAtom(p.GuardsOf(s), func(a an.Atom) bool {
+				e2, isEx := a.X.(*ssa.Extract)
+				return a.Op == token.ILLEGAL && a.Truth && isEx && e2.Tuple == ssa.Value(lk) && e2.Index == 1
+			})
+			if !found {
+				c.Fail("sighash:unknown-flag", "a flag missing from the table is not refused: it signs with hash type 0", posOf(c, s))
+			}
+			tab, why := globalStringIntMap(p, g)
+			if why != "" {
+				c.Fail("sighash:table", "the sighash table "+g.Name()+" cannot be read: "+why, posOf(c, s))
+				continue
+			}
+			for k, v := range tab {
+				got[k] = v
+			}
+		}
 		for name, v := range want {
 			if got[name] == v {
 				c.OK("sighash:"+name, "maps to the library constant", p.Pos(srt.Pos()))
@@ -340,7 +379,7 @@ func runC03(c *report.Ctx) {
 	amAddress := fn(c, pkgKeystore, "AddrManager", "Address")
 	newWSH := p.Fn("github.com/massnetorg/mass-core/massutil", "", "NewAddressWitnessScriptHash")
 	if sw != nil && amAddress != nil && newWSH != nil {
-		for _, f := range append(append([]*ssa.Function{}, sw.AnonFuncs...), fnOpt(c, pkgWallet, "WalletManager", "estimateSignedSize")) {
+		for _, f := range append(closuresOf(p, sw), fnOpt(c, pkgWallet, "WalletManager", "estimateSignedSize")) {
 			if f == nil {
 				continue
 			}
@@ -362,6 +401,75 @@ func runC03(c *report.Ctx) {
 	ruleEngineFlagsPerInput(c)
 	ruleCryptoKeySealing(c)
 	ruleSignErrorReturned(c)
+}
+
+// globalStringIntMap reads a package-level map[string]<integer> that is built by a composite literal in the package
+// initialiser and never written afterwards (no other store to the variable, no element update through it).
+func globalStringIntMap(p *an.Prog, g *ssa.Global) (map[string]int64, string) {
+	out := map[string]int64{}
+	var mk *ssa.MakeMap
+	for _, f := range p.ModFuncs {
+		if f.Blocks == nil {
+			continue
+		}
+		bad := ""
+		an.Instrs(f, func(in ssa.Instruction) {
+			switch x := in.(type) {
+			case *ssa.Store:
+				if x.Addr == ssa.Value(g) {
+					m, isMk := x.Val.(*ssa.MakeMap)
+					if f.Name() != "init" || f.Pkg != g.Pkg || !isMk || mk != nil {
+						bad = "the variable is assigned in " + sk(f)
+						return
+					}
+					mk = m
+				}
+			case *ssa.MapUpdate:
+				if ld, ok := x.Map.(*ssa.UnOp); ok && ld.X == ssa.Value(g) {
+					bad = "an element is written in " + sk(f)
+				}
+			case *ssa.UnOp:
+				if x.X == ssa.Value(g) && x.Op == token.MUL {
+					for _, r := range *x.Referrers() {
+						switch r.(type) {
+						case *ssa.Lookup, *ssa.Range, *ssa.DebugRef:
+						default:
+							if cc := an.CallOf(r); cc != nil {
+								if b, isB := cc.Value.(*ssa.Builtin); isB && b.Name() == "len" {
+									continue
+								}
+							}
+							if _, isMU := r.(*ssa.MapUpdate); isMU {
+								continue // reported above
+							}
+							bad = "the map escapes in " + sk(f)
+						}
+					}
+				}
+			}
+		})
+		if bad != "" {
+			return nil, bad
+		}
+	}
+	if mk == nil {
+		return nil, "no initialiser found"
+	}
+	for _, r := range *mk.Referrers() {
+		switch x := r.(type) {
+		case *ssa.MapUpdate:
+			k, isK := x.Key.(*ssa.Const)
+			v, isV := constInt(x.Value)
+			if !isK || k.Value == nil || !isV {
+				return nil, "an entry is not constant"
+			}
+			out[strings.Trim(k.Value.ExactString(), `"`)] = v
+		case *ssa.Store, *ssa.DebugRef:
+		default:
+			return nil, "the initialiser's map is used beyond its entries"
+		}
+	}
+	return out, ""
 }
 
 // passedExecute: block b is dominated by the block of the Execute call (the check follows the call).
